@@ -1,5 +1,6 @@
 """Python reference of the Core jets on words (arithmetic, logic, comparison, shift, resize and
-division families), independent of coq/Jets/JetSpec.v: written from the meaning of the jets
+division families) and on typed values (SHA-256 family, parse_lock / parse_sequence, secp256k1 field and
+scalar arithmetic), independent of coq/Jets/JetSpec.v: written from the meaning of the jets
 (simplicity-sys/depend/simplicity/jets.c, tech report), on python integers and bit lists.
 
 API
@@ -256,11 +257,315 @@ def _verify(bits):
 
 _reg("verify", BIT, UNIT, _verify, "verify")
 
-SPECIFIED = set(_J)
-JET_TYPES = {n: (e[0], e[1]) for n, e in _J.items()}
+
+# ------------------------------------------------------------------ jets on typed values
+# The SHA-256 family, parse_lock / parse_sequence and the field / scalar arithmetic of secp256k1.
+# The CTX8 type has optional components, so these references work on values, not on bit strings:
+#   _JV[name] = (src, tgt, value -> value (raises EvalFail('jet') when the jet fails), family, params)
+# Written from FIPS 180-4, BIP-340/SEC2 and the comments in jets.c / frame.c / sha256.h
+# (independent of coq/Jets/JetSpecSha.v and of coq/Merkle/Sha256.v).
+_JV = {}
+
+
+def _regv(name, src, tgt, fn, fam, *params):
+    assert name not in _J and name not in _JV
+    _JV[name] = (src, tgt, fn, fam, params)
+
+
+_K256 = [
+    0x428a2f98, 0x71374491, 0xb5c0fbcf, 0xe9b5dba5, 0x3956c25b, 0x59f111f1, 0x923f82a4, 0xab1c5ed5, 0xd807aa98, 0x12835b01,
+    0x243185be, 0x550c7dc3, 0x72be5d74, 0x80deb1fe, 0x9bdc06a7, 0xc19bf174, 0xe49b69c1, 0xefbe4786, 0x0fc19dc6, 0x240ca1cc,
+    0x2de92c6f, 0x4a7484aa, 0x5cb0a9dc, 0x76f988da, 0x983e5152, 0xa831c66d, 0xb00327c8, 0xbf597fc7, 0xc6e00bf3, 0xd5a79147,
+    0x06ca6351, 0x14292967, 0x27b70a85, 0x2e1b2138, 0x4d2c6dfc, 0x53380d13, 0x650a7354, 0x766a0abb, 0x81c2c92e, 0x92722c85,
+    0xa2bfe8a1, 0xa81a664b, 0xc24b8b70, 0xc76c51a3, 0xd192e819, 0xd6990624, 0xf40e3585, 0x106aa070, 0x19a4c116, 0x1e376c08,
+    0x2748774c, 0x34b0bcb5, 0x391c0cb3, 0x4ed8aa4a, 0x5b9cca4f, 0x682e6ff3, 0x748f82ee, 0x78a5636f, 0x84c87814, 0x8cc70208,
+    0x90befffa, 0xa4506ceb, 0xbef9a3f7, 0xc67178f2]
+SHA_IV = [0x6a09e667, 0xbb67ae85, 0x3c6ef372, 0xa54ff53a, 0x510e527f, 0x9b05688c, 0x1f83d9ab, 0x5be0cd19]
+_M32 = 0xFFFFFFFF
+
+
+def _rotr(x, n):
+    return ((x >> n) | (x << (32 - n))) & _M32
+
+
+def sha_compress(h, block):
+    """h: 8 words, block: 64 bytes -> 8 words"""
+    assert len(h) == 8 and len(block) == 64
+    w = [int.from_bytes(bytes(block[4 * i:4 * i + 4]), "big") for i in range(16)]
+    for i in range(16, 64):
+        s0 = _rotr(w[i - 15], 7) ^ _rotr(w[i - 15], 18) ^ (w[i - 15] >> 3)
+        s1 = _rotr(w[i - 2], 17) ^ _rotr(w[i - 2], 19) ^ (w[i - 2] >> 10)
+        w.append((w[i - 16] + s0 + w[i - 7] + s1) & _M32)
+    a, b, c, d, e, f, g, hh = h
+    for i in range(64):
+        s1 = _rotr(e, 6) ^ _rotr(e, 11) ^ _rotr(e, 25)
+        ch = (e & f) ^ (~e & _M32 & g)
+        t1 = (hh + s1 + ch + _K256[i] + w[i]) & _M32
+        s0 = _rotr(a, 2) ^ _rotr(a, 13) ^ _rotr(a, 22)
+        mj = (a & b) ^ (a & c) ^ (b & c)
+        t2 = (s0 + mj) & _M32
+        hh, g, f, e, d, c, b, a = g, f, e, (d + t1) & _M32, c, b, a, (t1 + t2) & _M32
+    return [(x + y) & _M32 for x, y in zip(h, [a, b, c, d, e, f, g, hh])]
+
+
+def _selftest_sha():
+    import hashlib
+    for msg in (b"", b"abc", bytes(range(200))):
+        m = msg + b"\x80" + b"\x00" * ((55 - len(msg)) % 64) + (8 * len(msg)).to_bytes(8, "big")
+        h = list(SHA_IV)
+        for i in range(0, len(m), 64):
+            h = sha_compress(h, list(m[i:i + 64]))
+        assert b"".join(x.to_bytes(4, "big") for x in h) == hashlib.sha256(msg).digest()
+
+
+_selftest_sha()
+
+
+def wval(n, x):
+    """the integer x as a value of the word type of n bits"""
+    return pg.of_compact(wty(n), to_bits(n, x))[0]
+
+
+def wnum(v):
+    return num(pg.compact_bits(v))
+
+
+def wbytes(v):
+    bits = pg.compact_bits(v)
+    assert len(bits) % 8 == 0
+    return [num(bits[i:i + 8]) for i in range(0, len(bits), 8)]
+
+
+def bytes_val(bs):
+    bits = []
+    for b in bs:
+        bits += to_bits(8, b)
+    return pg.of_compact(wty(len(bits)), bits)[0]
+
+
+def buf_ty(n):
+    """(2^8)^<2^(n+1): options of 2^n, ..., 2, 1 bytes"""
+    t = pg.opt(wty(8))
+    for k in range(1, n + 1):
+        t = pg.P(pg.opt(wty(8 << k)), t)
+    return t
+
+
+CTX8 = pg.P(buf_ty(5), pg.P(wty(64), wty(256)))
+MAX_BLOCKS = 1 << 55
+MAX_COUNTER = 1 << 61
+
+
+def buf_bytes(n, v):
+    out = []
+    for k in range(n, -1, -1):
+        o, v = (v[1], v[2]) if k > 0 else (v, None)
+        if o[0] == "R":
+            out += wbytes(o[1])
+    return out
+
+
+def buf_val(n, bs):
+    parts = []
+    bs = list(bs)
+    assert len(bs) < (2 << n)
+    for k in range(n, -1, -1):
+        nb = 1 << k
+        if len(bs) >= nb:
+            parts.append(("R", bytes_val(bs[:nb])))
+            bs = bs[nb:]
+        else:
+            parts.append(("L", ("U",)))
+    v = parts[-1]
+    for p in reversed(parts[:-1]):
+        v = ("P", p, v)
+    return v
+
+
+def ctx_val(buf, blocks, mid):
+    """CTX8 value from a buffer (< 64 bytes), a block count (64 bits) and a midstate (8 words)"""
+    mb = []
+    for x in mid:
+        mb += list(x.to_bytes(4, "big"))
+    return ("P", buf_val(5, buf), ("P", wval(64, blocks), bytes_val(mb)))
+
+
+def ctx_read(v):
+    buf = buf_bytes(5, v[1])
+    blocks = wnum(v[2][1])
+    mb = wbytes(v[2][2])
+    if blocks >= MAX_BLOCKS:
+        raise pg.EvalFail("jet")
+    return buf, blocks, [int.from_bytes(bytes(mb[4 * i:4 * i + 4]), "big") for i in range(8)]
+
+
+def ctx_add(ctx, data):
+    buf, blocks, mid = ctx
+    counter = 64 * blocks + len(buf)
+    if counter + len(data) >= MAX_COUNTER:
+        raise pg.EvalFail("jet")
+    pending = buf + list(data)
+    while len(pending) >= 64:
+        mid = sha_compress(mid, pending[:64])
+        pending = pending[64:]
+    return pending, (counter + len(data)) // 64, mid
+
+
+def ctx_finalize(ctx):
+    buf, blocks, mid = ctx
+    total = 64 * blocks + len(buf)
+    tail = [0x80] + [0] * ((55 - total) % 64) + list((8 * total).to_bytes(8, "big"))
+    pending, _, mid = ctx_add((buf, 0, mid), tail)       # the counter no longer matters
+    assert not pending
+    return mid
+
+
+def _mid_val(mid):
+    mb = []
+    for x in mid:
+        mb += list(x.to_bytes(4, "big"))
+    return bytes_val(mb)
+
+
+def _words_of(v):
+    mb = wbytes(v)
+    return [int.from_bytes(bytes(mb[4 * i:4 * i + 4]), "big") for i in range(len(mb) // 4)]
+
+
+_regv("sha_256_iv", UNIT, wty(256), lambda v: _mid_val(SHA_IV), "sha_const")
+_regv("sha_256_block", pg.P(wty(256), wty(512)), wty(256),
+      lambda v: _mid_val(sha_compress(_words_of(v[1]), wbytes(v[2]))), "sha_block")
+_regv("sha_256_ctx_8_init", UNIT, CTX8, lambda v: ctx_val([], 0, SHA_IV), "sha_const")
+
+
+def _tapdata():
+    import hashlib
+    d = hashlib.sha256(b"TapData").digest()
+    return ctx_val([], 1, sha_compress(SHA_IV, list(d + d)))
+
+
+_regv("tapdata_init", UNIT, CTX8, lambda v: _tapdata(), "sha_const")
+for _n in (1, 2, 4, 8, 16, 32, 64, 128, 256, 512):
+    _regv("sha_256_ctx_8_add_%d" % _n, pg.P(CTX8, wty(8 * _n)), CTX8,
+          lambda v: ctx_val(*ctx_add(ctx_read(v[1]), wbytes(v[2]))), "ctx_add", _n)
+_regv("sha_256_ctx_8_add_buffer_511", pg.P(CTX8, buf_ty(8)), CTX8,
+      lambda v: ctx_val(*ctx_add(ctx_read(v[1]), buf_bytes(8, v[2]))), "ctx_add_buffer")
+_regv("sha_256_ctx_8_finalize", CTX8, wty(256), lambda v: _mid_val(ctx_finalize(ctx_read(v))), "ctx_finalize")
+
+
+def _parse_lock(v):
+    n = wnum(v)
+    return ("R", v) if n >= 500000000 else ("L", v)
+
+
+def _parse_sequence(v):
+    n = wnum(v)
+    if n >> 31:
+        return ("L", ("U",))
+    low = wval(16, n & 0xFFFF)
+    return ("R", ("R", low) if (n >> 22) & 1 else ("L", low))
+
+
+_regv("parse_lock", wty(32), pg.S(wty(32), wty(32)), _parse_lock, "parse_lock")
+_regv("parse_sequence", wty(32), pg.opt(pg.S(wty(16), wty(16))), _parse_sequence, "parse_sequence")
+
+# secp256k1: the field of p elements and the scalars modulo the group order; every 256-bit pattern is
+# accepted and reduced, results are canonical
+FE_P = 2 ** 256 - 2 ** 32 - 977
+SC_N = 0xFFFFFFFFFFFFFFFFFFFFFFFFFFFFFFFEBAAEDCE6AF48A03BBFD25E8CD0364141
+FE_BETA = 0x7ae96a2b657c07106e64479eac3434e99cf0497512f58995c1396c28719501ee
+SC_LAMBDA = 0x5363ad4cc05c30e0a5261c028812645a122e22ea20816678df02967c1b23bd72
+assert pow(FE_BETA, 3, FE_P) == 1 and pow(SC_LAMBDA, 3, SC_N) == 1
+
+
+def _bitv(b):
+    return ("R", ("U",)) if b else ("L", ("U",))
+
+
+def _fe_sqrt(v):
+    a = wnum(v) % FE_P
+    r = pow(a, (FE_P + 1) // 4, FE_P)
+    return ("R", wval(256, r)) if r * r % FE_P == a else ("L", ("U",))
+
+
+for _pre, _m, _c, _cn in (("fe", FE_P, FE_BETA, "beta"), ("scalar", SC_N, SC_LAMBDA, "lambda")):
+    _regv(_pre + "_add", wty(512), wty(256), lambda v, m=_m: wval(256, (wnum(v[1]) + wnum(v[2])) % m), "mod2", _m)
+    _regv(_pre + "_multiply", wty(512), wty(256), lambda v, m=_m: wval(256, (wnum(v[1]) * wnum(v[2])) % m), "mod2", _m)
+    _regv(_pre + "_square", wty(256), wty(256), lambda v, m=_m: wval(256, wnum(v) ** 2 % m), "mod1", _m)
+    _regv(_pre + "_negate", wty(256), wty(256), lambda v, m=_m: wval(256, -wnum(v) % m), "mod1", _m)
+    _regv(_pre + "_normalize", wty(256), wty(256), lambda v, m=_m: wval(256, wnum(v) % m), "mod1", _m)
+    _regv(_pre + "_invert", wty(256), wty(256), lambda v, m=_m: wval(256, pow(wnum(v) % m, m - 2, m)), "mod1", _m)
+    _regv(_pre + "_is_zero", wty(256), BIT, lambda v, m=_m: _bitv(wnum(v) % m == 0), "mod1", _m)
+    _regv("%s_multiply_%s" % (_pre, _cn), wty(256), wty(256), lambda v, m=_m, c=_c: wval(256, wnum(v) * c % m), "mod1", _m)
+_regv("fe_is_odd", wty(256), BIT, lambda v: _bitv(wnum(v) % FE_P % 2 == 1), "mod1", FE_P)
+_regv("fe_square_root", wty(256), pg.opt(wty(256)), _fe_sqrt, "mod1", FE_P)
+
+
+def _ctx_edge_values(rng, n_extra):
+    """contexts worth trying: every buffer length class, block counts at the limits"""
+    out = []
+    mids = [SHA_IV, [num(rng.bits(32)) for _ in range(8)]]
+    lens = [0, 1, 31, 32, 33, 55, 56, 62, 63] + [rng.below(64) for _ in range(n_extra)]
+    for ln in lens:
+        out.append(ctx_val([num(rng.bits(8)) for _ in range(ln)], rng.below(5), rng.choice(mids)))
+    for ln, blocks in ((0, MAX_BLOCKS - 1), (63, MAX_BLOCKS - 1), (62, MAX_BLOCKS - 1), (0, MAX_BLOCKS), (5, MAX_BLOCKS + 1),
+                       (0, MAX_BLOCKS - 2), (40, MAX_BLOCKS - 3), (0, MAX_BLOCKS - 8), (1, MAX_BLOCKS - 9), (17, (1 << 64) - 1),
+                       (3, 1 << 58), (63, MAX_BLOCKS - 5), (60, MAX_BLOCKS - 4)):
+        out.append(ctx_val([num(rng.bits(8)) for _ in range(ln)], blocks, rng.choice(mids)))
+    return out
+
+
+def _edge_values(name, rng):
+    src, tgt, fn, fam, params = _JV[name]
+    vals = []
+    if fam == "sha_block":
+        vals.append(("P", _mid_val(SHA_IV), bytes_val([0x80] + [0] * 63)))                 # the empty message
+        vals.append(("P", _mid_val(SHA_IV), bytes_val([97, 98, 99, 0x80] + [0] * 59 + [24])))   # "abc"
+    elif fam == "ctx_add":
+        n = params[0]
+        for c in _ctx_edge_values(rng, 3):
+            vals.append(("P", c, bytes_val([num(rng.bits(8)) for _ in range(n)])))
+    elif fam == "ctx_add_buffer":
+        ctxs = _ctx_edge_values(rng, 2)
+        for k, ln in enumerate([0, 1, 63, 64, 65, 127, 128, 255, 256, 257, 510, 511, rng.below(512), rng.below(512)]):
+            data = [num(rng.bits(8)) for _ in range(ln)]
+            vals.append(("P", ctxs[k % len(ctxs)], buf_val(8, data)))
+            vals.append(("P", ctxs[(3 * k + 5) % len(ctxs)], buf_val(8, data)))
+    elif fam == "ctx_finalize":
+        vals += _ctx_edge_values(rng, 6)
+    elif fam == "parse_lock":
+        for x in (0, 1, 499999999, 500000000, 500000001, 2 ** 31, 2 ** 32 - 1, num(rng.bits(32)), num(rng.bits(29))):
+            vals.append(wval(32, x))
+    elif fam == "parse_sequence":
+        for x in (0, 1, 0xFFFF, 0x10000, 1 << 22, (1 << 22) | 0xFFFF, (1 << 22) - 1, (1 << 31) - 1, 1 << 31, (1 << 31) | (1 << 22) | 5,
+                  2 ** 32 - 1, (1 << 23) | 77, num(rng.bits(31)), num(rng.bits(31)) | (1 << 22), num(rng.bits(32))):
+            vals.append(wval(32, x))
+    elif fam in ("mod1", "mod2"):
+        m = params[0]
+        r = num(rng.bits(256)) % m
+        xs = [0, 1, 2, m - 1, m - 2, m, m + 1, 2 ** 256 - 1, r, (r * r) % m, (m - r * r % m) % m, (m + 1) // 2, 2 ** 255, 3, 5, 7]
+        if fam == "mod1":
+            vals += [wval(256, x) for x in xs]
+        else:
+            ys = [0, 1, m - 1, 2 ** 256 - 1, r, m - r, m]
+            for x in xs[:10]:
+                for y in (rng.choice(ys), rng.choice(ys)):
+                    vals.append(("P", wval(256, x), wval(256, y)))
+            vals.append(("P", wval(256, r), wval(256, m - r)))
+            vals.append(("P", wval(256, 2 ** 256 - 1), wval(256, 2 ** 256 - 1)))
+    return vals
+
+
+SPECIFIED = set(_J) | set(_JV)
+JET_TYPES = {n: (e[0], e[1]) for n, e in list(_J.items()) + list(_JV.items())}
 
 
 def eval_jet(name, value):
+    ev = _JV.get(name)
+    if ev is not None:
+        out = ev[2](value)
+        assert pg.has_ty(out, ev[1]), (name, out)
+        return out
     e = _J.get(name)
     if e is None:
         raise pg.EvalFail("nojet")
@@ -275,6 +580,17 @@ def eval_jet(name, value):
 
 
 # ------------------------------------------------------------------ edge inputs
+def _dirty_padded(rng, t, v):
+    if t[0] == "u":
+        return []
+    if t[0] == "s":
+        w = max(pg.width(t[1]), pg.width(t[2]))
+        if v[0] == "L":
+            return [0] + rng.bits(w - pg.width(t[1])) + _dirty_padded(rng, t[1], v[1])
+        return [1] + rng.bits(w - pg.width(t[2])) + _dirty_padded(rng, t[2], v[1])
+    return _dirty_padded(rng, t[1], v[1]) + _dirty_padded(rng, t[2], v[2])
+
+
 def _rnd(rng, w):
     return num(rng.bits(w))
 
@@ -333,6 +649,14 @@ def _words(rng, w):
 
 
 def edge_inputs(name, rng):
+    if name in _JV:
+        src = _JV[name][0]
+        out = []
+        for k, v in enumerate(_edge_values(name, rng)):
+            assert pg.has_ty(v, src), (name, v)
+            # the padding cells of absent buffer parts are arbitrary: alternate clean and dirty
+            out.append(pg.padded_bits(src, v, 0) if k % 2 == 0 else _dirty_padded(rng, src, v))
+        return out
     e = _J.get(name)
     if e is None:
         return []
